@@ -36,10 +36,16 @@ static void exec_twin(const Json &plan, RunResult &rr, Hist &h)
                 }
                 return q;
         };
+        // A run that used up the arena's page budget ended where the *harness* ran out of room, and where that happens depends on the
+        // placement knobs (skipped pages, the sub-page shift costs up to one page per buffer): such a run is compared with nothing.
+        bool out_of_room = false;
         auto run1 = [&](const Json &q, RunResult &r, Hist &hh) {
+                uint64_t before = g_arena.budget_hits;
                 g_arena.run_begin((size_t) ((uint64_t) q.at("mem").geti("skip")), (size_t) ((uint64_t) q.at("mem").geti("sub")));
                 p->exec(q, r, hh);
                 g_arena.run_end();
+                if (g_arena.budget_hits != before)
+                        out_of_room = true;
         };
         RunResult ra, rb;
         Hist ha, hb;
@@ -50,6 +56,11 @@ static void exec_twin(const Json &plan, RunResult &rr, Hist &h)
                 return;
         }
         run1(variant(7), rb, hb);
+        if (out_of_room) {
+                h = ha;
+                COUNT("run.twin_void_arena_budget");
+                return;
+        }
         h = ha;
         h.rec("twin", { (int64_t) (ha.h == hb.h), (int64_t) ha.events, (int64_t) hb.events });
         h.unusual++;
@@ -62,6 +73,10 @@ static void exec_twin(const Json &plan, RunResult &rr, Hist &h)
                         RunResult rd;
                         Hist hd;
                         run1(variant(9), rd, hd);
+                        if (out_of_room) {
+                                COUNT("run.twin_void_arena_budget");
+                                return;
+                        }
                         COUNT("mem.subpage_address_twin");
                         bool same = !strcmp(p->name, "kern") ? hd.h == ha.h : hd.res == ha.res;
                         if (!same || rd.oracle != ra.oracle)
@@ -76,6 +91,10 @@ static void exec_twin(const Json &plan, RunResult &rr, Hist &h)
                 RunResult rc;
                 Hist hc;
                 run1(variant(1 << k), rc, hc);
+                if (out_of_room) {
+                        COUNT("run.twin_void_arena_budget");
+                        return;
+                }
                 if (hc.h != ha.h || rc.oracle != ra.oracle) {
                         rr.fail(oracles[k], strf("same plan, same inputs: history differs when only the %s change (%llu vs %llu events; inner profile %s)", names[k], (unsigned long long) ha.events, (unsigned long long) hc.events, p->name));
                         return;
